@@ -611,4 +611,4 @@ def check_arm(ctx, env, c):
 
 from ..runner import Violation  # noqa: E402
 
-SUBCHECKS.append(Sub("arm", prim_cases(), check_arm, 24000, 400000, ("arm",), ("arm",), setup=arm_backends))
+SUBCHECKS.append(Sub("arm", prim_cases(), check_arm, 16000, 400000, ("arm",), ("arm",), setup=arm_backends))
